@@ -61,13 +61,12 @@ impl<'a> PageNode<'a> {
     pub fn len(&self) -> (r: usize)
         ensures r == node_len(self.g_bucket@, self.g_id@),
     { unimplemented!() }
-    // panics on a leaf; answers 0 for an index past the end
+    // panics on a leaf; called with a slot of the node only (contract of PageNode_index_page, unit pagenode)
     #[verifier::external_body]
     pub fn index_page(&self, index: usize) -> (r: PageID)
-        requires !node_leaf(self.g_bucket@, self.g_id@),
+        requires !node_leaf(self.g_bucket@, self.g_id@), index < node_len(self.g_bucket@, self.g_id@),
         ensures
-            index < node_len(self.g_bucket@, self.g_id@) ==> r == node_child(self.g_bucket@, self.g_id@, index as int),
-            index >= node_len(self.g_bucket@, self.g_id@) ==> r == 0,
+            r == node_child(self.g_bucket@, self.g_id@, index as int),
     { unimplemented!() }
     // binary search with the slot-before rule: (i, true) for an exact hit, else (insertion point - 1, saturating, false)
     #[verifier::external_body]
